@@ -96,15 +96,36 @@ def _est(cls, stem, spec, default_params=None, fit_extra=None):
     def run(m, opts):
         params = dict(default_params or {})
         params.update(opts.get('params', {}))
-        est = cls(**params)
+        holder = opts.get('__holder__')
+        if holder is not None and 'est' in holder:
+            est = holder['est']
+            if opts.get('set_params'):
+                est.set_params(opts['set_params'])
+        else:
+            est = cls(**params)
+            if holder is not None:
+                holder['est'] = est
         kw = _seed_kwargs(stem, opts) if stem else {}
         if 'force_bipartite' in inspect.signature(cls.fit).parameters:
             kw.update(_fb(opts))
         if fit_extra:
             kw.update(fit_extra(m, opts))
+        import copy
+        before = copy.deepcopy(kw)
         est.fit(m, **kw)
-        return _attrs(est, spec)
+        out = _attrs(est, spec)
+        changed = [k for k in kw if not _same(before[k], kw[k])]
+        if changed:
+            out['__args_modified__'] = ('raw', changed)
+        return out
     return run
+
+
+def _same(a, b):
+    if isinstance(a, np.ndarray) or isinstance(b, np.ndarray):
+        return isinstance(a, np.ndarray) and isinstance(b, np.ndarray) and a.shape == b.shape and a.dtype == b.dtype \
+            and bool(np.array_equal(a, b, equal_nan=True))
+    return type(a) is type(b) and a == b
 
 
 RANK = {'scores_': 'vec', 'scores_row_': 'vec', 'scores_col_': 'vec'}
@@ -167,10 +188,12 @@ reg('RandomProjection', ['sq', 'bip'], _est(E.RandomProjection, None, {'embeddin
                                              dict(n_components=2, random_state=0)), cls=E.RandomProjection, equiv=False, seeded='random_state')
 reg('LouvainEmbedding', ['sq', 'bip'], _est(E.LouvainEmbedding, None, {'embedding_': 'mat', 'embedding_row_': 'mat', 'embedding_col_': 'mat'}),
     cls=E.LouvainEmbedding, equiv=False, seeded='random_state')
-reg('Spring', ['sym'], _est(E.Spring, None, {'embedding_': 'mat'}, dict(position_init='spectral', n_iter=5)), cls=E.Spring, equiv=False)
+reg('Spring', ['sym'], _est(E.Spring, None, {'embedding_': 'mat'}, dict(n_iter=5),
+                             fit_extra=lambda m, o: {'position_init': np.array(o['pos_init'], dtype=float)} if o.get('pos_init') else {}),
+    cls=E.Spring, equiv=False, seeds='pos_init')
 reg('ForceAtlas', ['sym'], _est(E.ForceAtlas, None, {'embedding_': 'mat'}, dict(n_iter=5),
                                  fit_extra=lambda m, o: {'pos_init': np.array(o['pos_init'], dtype=float)} if o.get('pos_init') else {}),
-    cls=E.ForceAtlas, equiv=False, deterministic=False)
+    cls=E.ForceAtlas, equiv=False, seeds='pos_init')
 # ---- link prediction
 reg('NNLinker', ['sq', 'bip'], _est(L.NNLinker, None, {'links_': 'mat'}, dict(n_neighbors=3)), cls=L.NNLinker, equiv=False)
 
@@ -264,17 +287,66 @@ reg('visualize_bigraph', ['bip'], lambda m, o: {'svg': ('svg', V.visualize_bigra
 
 # ---------------------------------------------------------------------------------------------
 def accepts(name):
-    """Documented input containers of the matrix argument, read from the CURRENT signature annotation:
-    'all' when np.ndarray is listed next to csr_matrix, else 'csr'."""
+    """Documented input containers of the matrix argument, read from the CURRENT source:
+    'all' (csr, csc, coo, lil, dense) when the entry point is an estimator's fit or a function that passes its matrix
+    through check_format / get_adjacency(_values) (which document every SciPy format and ndarray) and np.ndarray is listed
+    in the annotation; 'csr+dense' when ndarray is listed but the body does not convert; else 'csr'."""
     a = ALGOS[name]
     target = a['cls'].fit if a['cls'] is not None else a['fn']
     sig = inspect.signature(target)
     params = [p for p in sig.parameters.values() if p.name != 'self']
     ann = params[0].annotation
     s = ann if isinstance(ann, str) else repr(ann)
-    return 'all' if 'ndarray' in s else 'csr'
+    if 'ndarray' not in s:
+        return 'csr'
+    try:
+        src = inspect.getsource(target)
+    except (OSError, TypeError):
+        src = ''
+    converts = ('check_format(' in src) or ('get_adjacency(' in src) or ('get_adjacency_values(' in src)
+    if a['cls'] is not None or converts:
+        return 'all'
+    return 'csr+dense'
 
 
 def describe(_):
     return {n: dict(kinds=a['kinds'], seeds=a['seeds'], equiv=a['equiv'], deterministic=a['deterministic'],
                     seeded=a['seeded'], exact=a['exact'], accepts=accepts(n), parallel=a['parallel']) for n, a in ALGOS.items()}
+
+
+def run(args):
+    from .util import mk_matrix
+    m = mk_matrix(args['m'])
+    snap = _snapshot(m) if args.get('snapshot') else None
+    out = ALGOS[args['name']]['run'](m, args.get('opts', {}))
+    res = {k: [t, v] for k, (t, v) in out.items()}
+    if snap is not None:
+        res['__modified__'] = ['raw', _snapshot(m) != snap]
+    return res
+
+
+def run_seq(args):
+    """Fit history on ONE estimator object: args = {'name', 'steps': [{'m':…, 'opts':…}, …]}; returns last outputs.
+    Only for class-based entries; the estimator is constructed once with the params of the LAST step."""
+    from .util import mk_matrix
+    a = ALGOS[args['name']]
+    res = None
+    holder = {}
+    for step in args['steps']:
+        m = mk_matrix(step['m'])
+        opts = dict(step.get('opts', {}))
+        opts['__holder__'] = holder
+        try:
+            res = a['run'](m, opts)
+        except Exception:
+            if step is args['steps'][-1]:
+                raise
+    return {k: [t, v] for k, (t, v) in res.items()}
+
+
+def _snapshot(m):
+    if sparse.issparse(m):
+        c = m.tocoo()
+        return [type(m).__name__, list(m.shape), str(m.dtype), sorted(zip(c.row.tolist(), c.col.tolist(), np.asarray(c.data, dtype=float).tolist()))]
+    return ['ndarray', list(m.shape), str(m.dtype), np.asarray(m, dtype=float).tolist()]
+
